@@ -373,7 +373,14 @@ def k_ids_reuse(ctx, seed):
             i = r.randrange(len(ids))
             if op == "attr":
                 new = r.getrandbits(13)
-                ids[i].apid, ids[i].ptype, ids[i].sec_header_flag = new & 0x7FF, sp.PacketType(new >> 12), bool(new >> 11 & 1)
+                which = r.choice(("all", "apid", "ptype", "sec_header_flag", "sec_header_flag"))      # one attribute at a time: each must be honoured on its own
+                if which in ("all", "apid"):
+                    ids[i].apid = new & 0x7FF
+                if which in ("all", "ptype"):
+                    ids[i].ptype = sp.PacketType(new >> 12)
+                if which in ("all", "sec_header_flag"):
+                    ids[i].sec_header_flag = not ids[i].sec_header_flag if which != "all" else bool(new >> 11 & 1)
+                op = f"attr:{which}"
             elif op == "replace":
                 ids[i] = sp.PacketId.from_raw(r.getrandbits(13))
             elif op == "append":
@@ -382,7 +389,7 @@ def k_ids_reuse(ctx, seed):
                 ids.pop(i)
             trail.append(op)
             ctx.table("ids_list_edits", op)
-        cur = sorted({x.raw() for x in ids})
+        cur = sorted({(int(x.ptype) << 12) | (int(bool(x.sec_header_flag)) << 11) | x.apid for x in ids})       # from the attributes, not from the library's own raw()
         pk = [make_packet(r, cur, r.choice((7, 9, 20, 40))) for _ in range(r.randrange(1, 5))]
         stream = b"".join(pk)
         q = collections.deque([bytearray(stream)])
